@@ -52,7 +52,7 @@ def build(rng):
         nm = "n%d" % k
         a, b = rng.choice(names), rng.choice(names)
         form = rng.choice(["arith", "arith", "decider", "sel", "alias", "const", "merge", "memread", "call", "bundle", "proj",
-                           "dup", "dup", "foldcall", "subexpr"])
+                           "dup", "dup", "foldcall", "subexpr", "coord"])
         if form == "dup":
             # the same expression as an earlier named result: the optimiser shares the node, both names stay visible
             prev = [s_ for s_ in prog if s_[0] in ("sig", "bun") and kinds.get(s_[1]) in ("arith", "decider", "sel", "proj", "bundle", "call")]
@@ -73,6 +73,17 @@ def build(rng):
                 prog.append(["func", "g", [["Signal", "s"], ["int", "q"]], [], ["p", ["b", "*", ["v", "s"], ["v", "q"]], types.fresh()]])
             prog.append(["sig", nm, ["call", "g", [["n", rng.randint(2, 9)], ["n", rng.randint(2, 9)]]]])
             kinds[nm] = "foldcall"
+            continue
+        if form == "coord":
+            # a place() coordinate given by a compile-time evaluable signal expression, declared again under a name
+            cs = "cs%d" % k
+            prog.append(["input", cs, types.fresh(), rng.randint(1, 4)])
+            kinds[cs] = "input"
+            ce = ["b", "*", ["v", cs], ["n", 2]]
+            prog.append(["place", "lampc%d" % k, "small-lamp", copy.deepcopy(ce), ["n", 40 + 2 * k], None])
+            prog.append(["set", "lampc%d" % k, "enable", ["c", ">", ["v", cs], ["n", 0]]])
+            prog.append(["sig", nm, copy.deepcopy(ce)])
+            kinds[nm] = "arith"
             continue
         if form == "subexpr":
             # a named result that is a sub-expression of the next one
